@@ -288,7 +288,12 @@ def opCheckSig (env : Env) (sub : List POp) (s : St) : Res :=
   match s.ds with
   | pk :: fullSig :: r =>
     let s := { s with ds := r }
-    if fullSig.length < 1 then .ok (pushBool false s) else
+    -- an empty signature is the compact way to fail; the public key's encoding is policed all the same (the node checks
+    -- both encodings before it looks at the signature; finding F-C06-06: the code used to push false first)
+    if fullSig.length < 1 then
+      (match checkPubKeyEncoding env pk with
+       | some e => .err e
+       | none => .ok (pushBool false s)) else
     let shf := (fullSig.getLast?.getD 0).toNat
     let sig := fullSig.dropLast
     match checkHashTypeEncoding env shf with
@@ -334,7 +339,11 @@ def multisigLoop (env : Env) (c : Ctx) (code : Except PErr Bytes) :
       | [] => .inr false
       | key :: keysRest =>
         if sigs.length > keys.length then .inr false
-        else if sg.length == 0 then multisigLoop env c code fuel sigs keysRest bad
+        else if sg.length == 0 then
+          -- an empty signature matches no key, but every key it is tried against has its encoding policed (F-C06-06)
+          (match checkPubKeyEncoding env key with
+           | some e => .inl e
+           | none => multisigLoop env c code fuel sigs keysRest bad)
         else
           let shf := (sg.getLast?.getD 0).toNat
           let sig := sg.dropLast
